@@ -12,6 +12,7 @@ mod mediaw;
 mod crashw;
 mod wrap;
 mod msgwin;
+mod ffi;
 
 fn main() {
     let args: Vec<String> = std::env::args().collect();
@@ -30,6 +31,7 @@ fn main() {
         Some("codec") => codec::main(&args[2..]),
         Some("wrap") => wrap::main(&args[2..]),
         Some("msgwin") => msgwin::main(&args[2..]),
+        Some("ffi") => ffi::main(&args[2..]),
         _ => {
             eprintln!("usage: vh store [--file] < ops");
             2
